@@ -8,6 +8,7 @@ use std::collections::HashSet;
 use std::fs;
 use std::io::{stderr, stdin, stdout, Read, Write};
 use std::path::Path;
+#[cfg_attr(stylua_verif, allow(unused_imports))]
 use std::sync::atomic::{AtomicI32, AtomicU32, Ordering};
 use std::sync::Arc;
 use std::time::Instant;
@@ -21,9 +22,18 @@ use crate::config::find_ignore_file_path;
 mod config;
 mod opt;
 mod output_diff;
+#[cfg(stylua_verif)]
+mod verif_sched;
 
+#[cfg(not(stylua_verif))]
 static EXIT_CODE: AtomicI32 = AtomicI32::new(0);
+#[cfg(stylua_verif)]
+static EXIT_CODE: verif_sched::SAtomicI32 = verif_sched::SAtomicI32::new("EXIT_CODE", 0);
+#[cfg(not(stylua_verif))]
 static UNFORMATTED_FILE_COUNT: AtomicU32 = AtomicU32::new(0);
+#[cfg(stylua_verif)]
+static UNFORMATTED_FILE_COUNT: verif_sched::SAtomicU32 =
+    verif_sched::SAtomicU32::new("UNFORMATTED_FILE_COUNT", 0);
 
 enum FormatResult {
     /// Operation was a success, the output was either written to a file or stdout. If diffing, there was no diff to create.
@@ -328,6 +338,10 @@ fn format(opt: opt::Opt) -> Result<i32> {
     debug!("creating a pool with {} threads", opt.num_threads);
     let pool = ThreadPool::new(std::cmp::max(opt.num_threads, 2)); // Use a minimum of 2 threads, because we need at least one output reader as well as a formatter
     let (tx, rx) = crossbeam_channel::unbounded::<Result<_>>();
+    #[cfg(stylua_verif)]
+    let (tx, rx) = verif_sched::wrap_channel(tx, rx);
+    #[cfg(stylua_verif)]
+    verif_sched::set_workers(std::cmp::max(opt.num_threads, 2));
     let output_format = opt.output_format;
     let opt = Arc::new(opt);
 
@@ -344,6 +358,8 @@ fn format(opt: opt::Opt) -> Result<i32> {
 
     // Create a thread to handle the formatting output
     pool.execute(move || {
+        #[cfg(stylua_verif)]
+        let _verif_guard = verif_sched::enter_output();
         for output in rx {
             match output {
                 Ok(result) => match result {
@@ -424,7 +440,11 @@ fn format(opt: opt::Opt) -> Result<i32> {
 
                     let config = config_resolver.load_configuration_for_stdin()?;
 
+                    #[cfg(stylua_verif)]
+                    let verif_job = verif_sched::submit();
                     pool.execute(move || {
+                        #[cfg(stylua_verif)]
+                        let _verif_guard = verif_sched::enter_job(verif_job);
                         let mut buf = String::new();
                         tx.send(
                             stdin()
@@ -505,7 +525,11 @@ fn format(opt: opt::Opt) -> Result<i32> {
                         let config = config_resolver.load_configuration(&path)?;
 
                         let tx = tx.clone();
+                        #[cfg(stylua_verif)]
+                        let verif_job = verif_sched::submit();
                         pool.execute(move || {
+                            #[cfg(stylua_verif)]
+                            let _verif_guard = verif_sched::enter_job(verif_job);
                             tx.send(
                                 format_file(&path, config, range, &opt, verify_output).map_err(
                                     |error| {
@@ -538,6 +562,8 @@ fn format(opt: opt::Opt) -> Result<i32> {
     }
 
     drop(tx);
+    #[cfg(stylua_verif)]
+    verif_sched::main_done();
     pool.join();
 
     // Output summary
@@ -579,6 +605,8 @@ fn format(opt: opt::Opt) -> Result<i32> {
 }
 
 fn main() {
+    #[cfg(stylua_verif)]
+    verif_sched::init();
     let opt = opt::Opt::parse();
     let output_format = opt.output_format;
     let should_use_color = opt.color.should_use_color_stderr();
@@ -635,6 +663,8 @@ fn main() {
         }
     };
 
+    #[cfg(stylua_verif)]
+    verif_sched::finish(exit_code);
     std::process::exit(exit_code);
 }
 
